@@ -59,7 +59,7 @@ local macro "lab_tac" n:ident b:ident I:term:max J:term:max q:ident hb:ident P:t
     rcases zone_cases $n $J with ⟨h3, hz'⟩ | ⟨h3, h4, hz'⟩ | ⟨h3, h4, hz'⟩ <;>
     (try omega) <;>
     rw [hz, hz'] <;>
-    refine b12 (P := fun b => nbZ $n b _ _ _ _ = some $q → $P) $b $hb ?_ ?_ ?_ ?_ ?_ ?_ ?_ ?_ ?_ ?_ ?_ ?_ <;>
+    refine b12 (P := $P) $b $hb ?_ ?_ ?_ ?_ ?_ ?_ ?_ ?_ ?_ ?_ ?_ ?_ <;>
     simp only [nbZ, ofOffsets, ofIndex, seamRule, ncpRule, eqrRule, spcRule, baseCell, next, prev, oppo, Src.eval] <;>
     simp <;>
     · rintro rfl
@@ -75,42 +75,50 @@ set_option linter.unusedSimpArgs false
 set_option maxHeartbeats 1000000 in
 theorem lab_S : nbAt n b ((i : Int) + (-1)) ((j : Int) + (-1)) = some q →
     InQ n b i j q S ∧ ¬ InQ n b i j q E ∧ ¬ InQ n b i j q N ∧ ¬ InQ n b i j q W := by
-  lab_tac n b ((i : Int) + (-1)) ((j : Int) + (-1)) q hb (InQ n b i j q S ∧ ¬ InQ n b i j q E ∧ ¬ InQ n b i j q N ∧ ¬ InQ n b i j q W)
+  lab_tac n b ((i : Int) + (-1)) ((j : Int) + (-1)) q hb
+    (fun b => nbZ n b _ _ _ _ = some q → InQ n b i j q S ∧ ¬ InQ n b i j q E ∧ ¬ InQ n b i j q N ∧ ¬ InQ n b i j q W)
 
 set_option maxHeartbeats 1000000 in
 theorem lab_SE : nbAt n b ((i : Int) + (0)) ((j : Int) + (-1)) = some q →
     InQ n b i j q S ∧ InQ n b i j q E ∧ ¬ InQ n b i j q N ∧ ¬ InQ n b i j q W := by
-  lab_tac n b ((i : Int) + (0)) ((j : Int) + (-1)) q hb (InQ n b i j q S ∧ InQ n b i j q E ∧ ¬ InQ n b i j q N ∧ ¬ InQ n b i j q W)
+  lab_tac n b ((i : Int) + (0)) ((j : Int) + (-1)) q hb
+    (fun b => nbZ n b _ _ _ _ = some q → InQ n b i j q S ∧ InQ n b i j q E ∧ ¬ InQ n b i j q N ∧ ¬ InQ n b i j q W)
 
 set_option maxHeartbeats 1000000 in
 theorem lab_E : nbAt n b ((i : Int) + (1)) ((j : Int) + (-1)) = some q →
     ¬ InQ n b i j q S ∧ InQ n b i j q E ∧ ¬ InQ n b i j q N ∧ ¬ InQ n b i j q W := by
-  lab_tac n b ((i : Int) + (1)) ((j : Int) + (-1)) q hb (¬ InQ n b i j q S ∧ InQ n b i j q E ∧ ¬ InQ n b i j q N ∧ ¬ InQ n b i j q W)
+  lab_tac n b ((i : Int) + (1)) ((j : Int) + (-1)) q hb
+    (fun b => nbZ n b _ _ _ _ = some q → ¬ InQ n b i j q S ∧ InQ n b i j q E ∧ ¬ InQ n b i j q N ∧ ¬ InQ n b i j q W)
 
 set_option maxHeartbeats 1000000 in
 theorem lab_SW : nbAt n b ((i : Int) + (-1)) ((j : Int) + (0)) = some q →
     InQ n b i j q S ∧ ¬ InQ n b i j q E ∧ ¬ InQ n b i j q N ∧ InQ n b i j q W := by
-  lab_tac n b ((i : Int) + (-1)) ((j : Int) + (0)) q hb (InQ n b i j q S ∧ ¬ InQ n b i j q E ∧ ¬ InQ n b i j q N ∧ InQ n b i j q W)
+  lab_tac n b ((i : Int) + (-1)) ((j : Int) + (0)) q hb
+    (fun b => nbZ n b _ _ _ _ = some q → InQ n b i j q S ∧ ¬ InQ n b i j q E ∧ ¬ InQ n b i j q N ∧ InQ n b i j q W)
 
 set_option maxHeartbeats 1000000 in
 theorem lab_NE : nbAt n b ((i : Int) + (1)) ((j : Int) + (0)) = some q →
     ¬ InQ n b i j q S ∧ InQ n b i j q E ∧ InQ n b i j q N ∧ ¬ InQ n b i j q W := by
-  lab_tac n b ((i : Int) + (1)) ((j : Int) + (0)) q hb (¬ InQ n b i j q S ∧ InQ n b i j q E ∧ InQ n b i j q N ∧ ¬ InQ n b i j q W)
+  lab_tac n b ((i : Int) + (1)) ((j : Int) + (0)) q hb
+    (fun b => nbZ n b _ _ _ _ = some q → ¬ InQ n b i j q S ∧ InQ n b i j q E ∧ InQ n b i j q N ∧ ¬ InQ n b i j q W)
 
 set_option maxHeartbeats 1000000 in
 theorem lab_W : nbAt n b ((i : Int) + (-1)) ((j : Int) + (1)) = some q →
     ¬ InQ n b i j q S ∧ ¬ InQ n b i j q E ∧ ¬ InQ n b i j q N ∧ InQ n b i j q W := by
-  lab_tac n b ((i : Int) + (-1)) ((j : Int) + (1)) q hb (¬ InQ n b i j q S ∧ ¬ InQ n b i j q E ∧ ¬ InQ n b i j q N ∧ InQ n b i j q W)
+  lab_tac n b ((i : Int) + (-1)) ((j : Int) + (1)) q hb
+    (fun b => nbZ n b _ _ _ _ = some q → ¬ InQ n b i j q S ∧ ¬ InQ n b i j q E ∧ ¬ InQ n b i j q N ∧ InQ n b i j q W)
 
 set_option maxHeartbeats 1000000 in
 theorem lab_NW : nbAt n b ((i : Int) + (0)) ((j : Int) + (1)) = some q →
     ¬ InQ n b i j q S ∧ ¬ InQ n b i j q E ∧ InQ n b i j q N ∧ InQ n b i j q W := by
-  lab_tac n b ((i : Int) + (0)) ((j : Int) + (1)) q hb (¬ InQ n b i j q S ∧ ¬ InQ n b i j q E ∧ InQ n b i j q N ∧ InQ n b i j q W)
+  lab_tac n b ((i : Int) + (0)) ((j : Int) + (1)) q hb
+    (fun b => nbZ n b _ _ _ _ = some q → ¬ InQ n b i j q S ∧ ¬ InQ n b i j q E ∧ InQ n b i j q N ∧ InQ n b i j q W)
 
 set_option maxHeartbeats 1000000 in
 theorem lab_N : nbAt n b ((i : Int) + (1)) ((j : Int) + (1)) = some q →
     ¬ InQ n b i j q S ∧ ¬ InQ n b i j q E ∧ InQ n b i j q N ∧ ¬ InQ n b i j q W := by
-  lab_tac n b ((i : Int) + (1)) ((j : Int) + (1)) q hb (¬ InQ n b i j q S ∧ ¬ InQ n b i j q E ∧ InQ n b i j q N ∧ ¬ InQ n b i j q W)
+  lab_tac n b ((i : Int) + (1)) ((j : Int) + (1)) q hb
+    (fun b => nbZ n b _ _ _ _ = some q → ¬ InQ n b i j q S ∧ ¬ InQ n b i j q E ∧ InQ n b i j q N ∧ ¬ InQ n b i j q W)
 
 end
 
